@@ -520,7 +520,7 @@ def argument_case(ctx, r, cid):
          lambda: Grid(np.arange(3.), sp2, silence_level=3)
          .euclidean_distance()),
         ("RecurrencePlot.legendre_coordinates", [x],
-         lambda: RecurrencePlot.legendre_coordinates(x, dim=3, t_forth=2)),
+         lambda: RecurrencePlot.legendre_coordinates(x, dim=3, tau_w=5)),
         ("RecurrencePlot.threshold_from_recurrence_rate_fast", [Dm],
          lambda: RecurrencePlot.threshold_from_recurrence_rate_fast(
              Dm, 0.3, rr_precision=0.5)),
